@@ -153,6 +153,7 @@ pub fn lanes_for(prop: &str, tier: &str, seed: u64) -> Vec<Scenario> {
             v.extend(gen::lane_faults(Tier::Lib, seed));
             v.extend(gen_cli::lane_stream_layers(seed));
             v.extend(gen::lane_script_exit(seed));
+            v.extend(gen::lane_big_stdin(seed));
             v.extend(gen_cli::lane_cli_fates(seed, if thorough { 1 } else { 4 }));
             v.extend(gen_cli::lane_pairing(seed));
             v.extend(gen_cli::lane_cli_report_bytes(seed));
